@@ -24,7 +24,7 @@ func TestVerifDisplay(t *testing.T) {
 	if rp != nil {
 		n = 1
 	}
-	for i := 0; i < n; i++ {
+	for i := 0; i < n && vHangs < 3; i++ { // three calls that never returned settle the verdict
 		bs, frames := vStream(r, res.n(40, 200))
 		if i%4 == 3 {
 			bs = vStreamStray(r)
@@ -37,14 +37,19 @@ func TestVerifDisplay(t *testing.T) {
 		case 4:
 			chunkList = []int{8192, 0}
 		}
+		var stall time.Duration
+		if i >= n-res.n(1, 2) {
+			stall = time.Duration(res.n(8, 35)) * time.Second
+		}
 		if rp != nil {
 			bs = vUnhx(rp["stream"])
 			frames = vFramesOf(start, bs)
 			delay, _ = time.ParseDuration(rp["delay"])
+			stall, _ = time.ParseDuration(rp["stall"])
 			chunkList = vInts(rp["chunks"])
 		}
 		var cfg jsonconfig.Config
-		op := fmt.Sprintf("display delay=%v chunks=%s stream=%s", delay, vIntsText(chunkList), vhx(bs))
+		op := fmt.Sprintf("display delay=%v stall=%v chunks=%s stream=%s", delay, stall, vIntsText(chunkList), vhx(bs))
 		vMark(op)
 		// reference: instant writer, read after quiescence
 		refW := &slowWriter{}
@@ -59,7 +64,8 @@ func TestVerifDisplay(t *testing.T) {
 			headingCalls = hw.callCount()
 		}
 		wantCalls := headingCalls + len(vSegments(bs))
-		w := &slowWriter{delay: delay}
+		var inputDone int32
+		w := &slowWriter{delay: delay, stall: stall, stallAt: len(want)}
 		failure := ""
 		func() {
 			defer func() {
@@ -70,12 +76,13 @@ func TestVerifDisplay(t *testing.T) {
 			done := make(chan struct{})
 			go func() {
 				defer close(done)
-				HandleMessages(start, &chunked{data: append([]byte{}, bs...), chunks: chunkList}, w, &cfg)
+				HandleMessages(start, &chunked{data: append([]byte{}, bs...), chunks: chunkList, done: &inputDone}, w, &cfg)
 			}()
 			select {
 			case <-done:
 			case <-time.After(120 * time.Second):
 				failure = "HandleMessages did not return"
+				vHangs++
 				return
 			}
 			got := w.snapshot()
